@@ -49,6 +49,7 @@ pub fn run_c13(run: &mut Run) -> anyhow::Result<()> {
         run.mark(&format!("scenario dialing {sc} seed {} (re-run with ./check C13 --seed <seed>)", run.seed));
         scenario(run, &mut rng, sc as u64)?;
     }
+    crate::peers::blocked_handler(run, if run.quick() { 1 } else { 4 }, "redial")?;
     Ok(())
 }
 
